@@ -506,6 +506,69 @@ def run_linear(chk, spec):
 
 RUNNERS["linear"] = run_linear
 
+def _dd(items):
+	import collections
+	d = collections.defaultdict(int)
+	for k, v in items:
+		d[k] = v
+	return d
+
+
+def _counter(text):
+	import collections
+	return collections.Counter(text)
+
+
+class _Bag(dict):
+	def __init__(self, items=()):
+		super().__init__()
+		for k, v in items:
+			self[k] = v
+
+
+class _SetSub(set):
+	pass
+
+
+class _FloatSub(float):
+	pass
+
+
+def run_special_numbers(chk, spec):
+	"""(a) complex cells with a NaN part are still different values when their other parts differ: replacing one by another, or swapping two, changes the
+	fingerprint; (b) a NaN that is an instance of a float subclass is a NaN: a vector holding it has the fingerprint of a freshly built equal vector"""
+	nan = float("nan")
+	what = spec["what"]
+	chk.judged("sensitivity", ("special-numbers", what))
+	if what == "complex-nan-parts":
+		cells = [complex(nan, 1), complex(nan, 2), complex(3, nan), complex(nan, nan), 1j]
+		i, j = spec["i"], spec["j"]
+		v = Vector([cells[i], 2j, cells[4]])
+		a = fp(v)
+		w = call(v.__setitem__, 0, cells[j])
+		b = fp(v)
+		if a.ok and b.ok and w.ok and a.value == b.value and hash(cells[i]) != hash(cells[j]):
+			chk.fail("a write that changes an element to an unequal value changes the fingerprint", "fingerprint/insensitive/complex-nan-parts", f"{spec!r}: {cells[i]!r} replaced by {cells[j]!r}: fingerprint still {a.value}")
+			return
+		x, y = Vector([cells[i], cells[j], 5j]), Vector([cells[j], cells[i], 5j])
+		fx, fy = fp(x), fp(y)
+		if fx.ok and fy.ok and fx.value == fy.value and hash(cells[i]) != hash(cells[j]):
+			chk.fail("element order matters to the fingerprint", "fingerprint/insensitive/swap/complex-nan-parts", f"{spec!r}: swapping {cells[i]!r} and {cells[j]!r} kept the fingerprint")
+	else:
+		x = Vector([_FloatSub("nan"), 1.5])
+		y = Vector([float("nan"), 1.5])
+		z = Vector([_FloatSub("nan"), 1.5])
+		fx, fy, fz = fp(x), fp(y), fp(z)
+		if fx.ok and fz.ok and fx.value != fz.value:
+			chk.fail("fingerprint() equals the fingerprint of a freshly built object with the same contents", "fingerprint/stale/float-subclass-nan", f"{spec!r}: two vectors [F(nan), 1.5] built alike: {fx.value} vs {fz.value}")
+			return
+		if fx.ok and fy.ok and fx.value != fy.value:
+			chk.fail("fingerprint() is a function of current contents only (NaN is NaN)", "fingerprint/equal-contents-differ/float-subclass-nan", f"{spec!r}: [F(nan), 1.5] vs [nan, 1.5]: {fx.value} vs {fy.value}")
+
+
+RUNNERS_EXTRA = {"special_numbers": run_special_numbers}
+
+
 def run_equal_cells(chk, spec):
 	"""two EQUAL cells that were built differently - a dict whose hash-colliding keys were inserted in another order, a set built in another order, an
 	equal tuple - are the same contents: vectors and tables that differ only in which of the two they hold have one fingerprint, and overwriting
@@ -516,6 +579,9 @@ def run_equal_cells(chk, spec):
 		"dict-tuple-keys": ({(0, -1): 1, (0, -2): 2}, {(0, -2): 2, (0, -1): 1}), "dict-plain": ({"a": 1, "b": 2}, {"b": 2, "a": 1}), "dict-colliding-values": ({"a": -1, "b": -2}, {"b": -2, "a": -1}),
 		"set-orders": ({-1, -2, 5}, {5, -2, -1}), "set-of-frozensets": ({frozenset({0}), frozenset({14})}, {frozenset({14}), frozenset({0})}), "set-mixed": ({1, "a", None}, {None, "a", 1}),
 		"nested-dict-in-list": ([{-1: 1, -2: 2}], [{-2: 2, -1: 1}]), "tuple-equal": ((1, (2, 3)), tuple([1, tuple([2, 3])])),
+		# instances of SUBCLASSES of the containers are containers too
+		"defaultdict-orders": (_dd([("a", 1), ("b", 2)]), _dd([("b", 2), ("a", 1)])), "counter-orders": (_counter("aab"), _counter("baa")), "dict-subclass-orders": (_Bag([("x", 1), ("y", 2)]), _Bag([("y", 2), ("x", 1)])),
+		"set-subclass-orders": (_SetSub([-1, -2, 5]), _SetSub([5, -2, -1])), "defaultdict-vs-dict": (_dd([("a", 1)]), {"a": 1}),
 	}
 	x, y = pairs[spec["pair"]]
 	if x != y:
@@ -581,6 +647,7 @@ def run_type_history(chk, spec):
 
 
 RUNNERS["equal_cells"] = run_equal_cells
+RUNNERS.update(RUNNERS_EXTRA)
 RUNNERS["type_history"] = run_type_history
 
 def run_zero_hash_cells(chk, spec):
@@ -624,6 +691,12 @@ def setup(chk):
 def run(chk):
 	recompute.add_cases(chk, "C16")
 	rng = chk.rng
+	for i, j in ((0, 1), (1, 0), (0, 2), (2, 3), (0, 3), (3, 1)):
+		chk.case("special_numbers", {"what": "complex-nan-parts", "i": i, "j": j}, "special-numbers")
+	chk.case("special_numbers", {"what": "float-subclass-nan"}, "special-numbers")
+	for pair in ("defaultdict-orders", "counter-orders", "dict-subclass-orders", "set-subclass-orders", "defaultdict-vs-dict"):
+		for where in ("vector", "table"):
+			chk.case("equal_cells", {"pair": pair, "where": where}, "equal-cells")
 	for pair in ("dict-colliding-keys", "dict-colliding-keys-2", "dict-tuple-keys", "dict-plain", "dict-colliding-values", "set-orders", "set-of-frozensets", "set-mixed", "nested-dict-in-list", "tuple-equal"):
 		for where in ("vector", "table"):
 			chk.case("equal_cells", {"pair": pair, "where": where}, "equal-cells")
